@@ -22,6 +22,8 @@ var pwReal = map[string]string{
 	"a":    "a",
 	"b":    "A", // differs from "a" only in letter case: passwords are case sensitive
 	"uni":  "pässwörd-ключ", // non-ASCII, already in NFKC form
+	"sp":   " ",   // white space only, not empty
+	"tab":  "\t ", // white space only, not empty
 	"long": "0123456789abcdefghijABCDEFGHIJ0123456789", // 40 bytes (> 32)
 }
 
